@@ -26,7 +26,11 @@ REPS = {
                          to_mut="promotable_odd_to_mut", is_unique="promotable_is_unique"),
     "frozen": dict(clone="shared_v_clone", drop="shared_v_drop", to_vec="shared_v_to_vec", to_mut="shared_v_to_mut", is_unique="shared_v_is_unique"),
     "owned": dict(clone="owned_clone", drop="owned_drop", to_vec="owned_to_vec", to_mut="owned_to_mut", is_unique="owned_is_unique"),
+    # BytesMut handles in shared form: clone = what split_off/split_to do to the count (increment_shared), drop = Drop for BytesMut,
+    # to_vec = From<BytesMut> for Vec<u8> (Shared::is_unique, then take the vector or copy + release)
+    "bm_arc": dict(clone="increment_shared", drop="@BytesMut::drop", to_vec="@Vec::from(BytesMut)"),
 }
+BM_FIELDS = [("unk", "ptr"), ("unk", "len"), ("unk", "cap"), ("dataval", ("arg", "self", 1))]
 
 try:
     mir = mirsym.dump_mir(REPO)
@@ -35,9 +39,20 @@ try:
     models = set()
     inlined = set()
     needed = sorted(set(f for r in REPS.values() for f in r.values()))
+    def lookup(fn):
+        if fn == "@BytesMut::drop":
+            c = [n for n, f in funcs.items() if n.startswith("bytes_mut::<impl") and n.endswith("::drop") and f.ptypes.get("_1", "").strip() == "&mut BytesMut"]
+            return c[0], {1: ("byref_agg", "BytesMut", BM_FIELDS)}
+        if fn == "@Vec::from(BytesMut)":
+            c = [n for n, f in funcs.items() if n.startswith("bytes_mut::<impl") and n.endswith("::from") and f.ptypes.get("_1", "").strip() == "BytesMut"
+                 and "Vec<u8>" in (open("/dev/null").read() or "Vec<u8>")]
+            c = [n for n in c if any("is_unique" in ln for b in funcs[n].blocks.values() for ln in b)]
+            return c[0], {1: ("agg", "BytesMut", BM_FIELDS)}
+        return fn, None
     for fn in needed:
         w = mirsym.Walker(funcs, consts)
-        paths = w.run(fn)
+        real, argv = lookup(fn)
+        paths = w.run(real, argv)
         models |= w.models_used
         inlined |= w.inlined
         pr = rc11.project(paths)
@@ -113,12 +128,11 @@ def programs(tier, seed):
         pairs = list(itertools.combinations_with_replacement(range(len(BODIES)), 2))
         rnd = random.Random(seed * 7919 + hash(rep) % 1000)
         if tier == "quick":
-            # all pairs over the 6 most distinctive bodies for the shared representation, a seeded sample for the rest
-            core = [0, 1, 2, 3, 4, 5]
+            # all pairs over the 6 most distinctive bodies for the shared representation; for the other representations all
+            # pairs over {drop, read+drop, clone+drop+drop, into_vec, into_mut} (every pair that can free, take or race)
+            core = [0, 1, 2, 3, 4, 5] if rep == "shared" else [0, 1, 2, 3, 4]
             base = [(a, b) for a, b in pairs if a in core and b in core]
-            if rep != "shared":
-                rnd.shuffle(base)
-                base = base[:6]
+            base = [(a, b) for a, b in base if all(o == "read" or o in REPS[rep] for i in (a, b) for o in BODIES[i])]
             for a, b in base:
                 progs.append((rep, [BODIES[a], BODIES[b]], False))
         else:
@@ -136,6 +150,7 @@ def programs(tier, seed):
         if tier != "quick":
             progs.append((par, [["clone", "drop"], ["clone", "drop"], ["clone", "drop"]], True))
             progs.append((par, [["clone", "to_mut"], ["clone", "drop"]], True))
+    progs = [p for p in progs if all(o == "read" or o in REPS[p[0]] for b in p[1] for o in b)]
     return progs
 
 
